@@ -1637,3 +1637,32 @@ func modelWrites(c *Check, rule string, own []*ssa.Function) int {
 	}
 	return n
 }
+
+// explicitBlank: the call's (first) result is assigned to the blank identifier
+// in an assignment statement — `_ = f.Close()` — not merely dropped.
+func explicitBlank(f *ssa.Function, call *ssa.Call) bool {
+	syn := f.Syntax()
+	if syn == nil {
+		return false
+	}
+	res := false
+	ast.Inspect(syn, func(n ast.Node) bool {
+		as, ok := n.(*ast.AssignStmt)
+		if !ok || len(as.Rhs) != 1 {
+			return true
+		}
+		ce, ok := ast.Unparen(as.Rhs[0]).(*ast.CallExpr)
+		if !ok || ce.Lparen != call.Pos() {
+			return true
+		}
+		all := len(as.Lhs) > 0
+		for _, l := range as.Lhs {
+			if id, ok := l.(*ast.Ident); !ok || id.Name != "_" {
+				all = false
+			}
+		}
+		res = all
+		return false
+	})
+	return res
+}
